@@ -261,3 +261,21 @@ Proof.
     intros d Hd. destruct d as [|c d']; [change (lenN (@nil N)) with 0; cbn; lia|].
     specialize (Hl _ Hd ltac:(discriminate)). lia.
 Qed.
+
+(* a strict prefix of a chunked body leaves the parser INSIDE the body: the payload parser has not completed *)
+Lemma chunked_strict_prefix_open lim o mt sc infl ds evs :
+  (forall d, In d ds -> d <> [] -> lenN (to_hex (lenN d)) + 1 <= max_line lim) ->
+  2 <= max_line lim -> 1 <= max_field lim ->
+  forall x y, chunked_body ds = x ++ y -> y <> [] ->
+  exists p' a', forall f, (2 * length x + 2 <= f)%nat ->
+    feed_loop f lim o (bst (Some (mkP (PChunked CSize) [] [] mt)) sc infl) x evs = (bst (Some p') sc infl, a', ROk []).
+Proof.
+  intros Hl H2 H1 x y E Hy. destruct x as [|a x'].
+  { eexists _, _. intros f Hf. destruct f as [|f]; [cbn in Hf; lia|]. apply feed_loop_nil. }
+  set (x := a :: x') in *.
+  destruct (chunked_prefixes lim mt ds evs x y Hl H2 H1 E Hy) as (p' & e1 & Hok & Hrun).
+  exists p', e1. intros f Hf. destruct f as [|f]; [lia|]. rewrite feed_loop_S.
+  rewrite (step_f_need lim o _ sc infl x evs p' e1); [reflexivity|discriminate|].
+  rewrite (feed_payload_chunked _ _ CSize) by reflexivity.
+  cbn [too_long pk ctail tlines max_trailers app]. apply Hrun. lia.
+Qed.
